@@ -68,8 +68,12 @@ DEVICE_TYPES = ["AnalogInput", "AnalogOutput", "DigitalInput",
                 "RandomDropper", "Custom"]
 
 
+DETERMINISTIC = ["AnalogInput", "AnalogOutput", "DigitalInput",
+                 "DigitalOutput", "Motor", "Custom"]
+
+
 @st.composite
-def fast_group_strategy(draw, max_terminals=3):
+def fast_group_strategy(draw, max_terminals=3, types=None):
     nt = draw(st.integers(1, max_terminals))
     terms = [draw(terminal_strategy(i)) for i in range(nt)]
 
@@ -81,7 +85,7 @@ def fast_group_strategy(draw, max_terminals=3):
 
     devs = []
     for _ in range(draw(st.integers(1, 4))):
-        typ = draw(st.sampled_from(DEVICE_TYPES))
+        typ = draw(st.sampled_from(types or DEVICE_TYPES))
         links = {}
         if typ == "AnalogInput":
             links["data"] = pick("in", False)
@@ -104,7 +108,8 @@ def fast_group_strategy(draw, max_terminals=3):
             continue
         devs.append({"type": typ, "links": links})
     if not devs:
-        devs.append({"type": "Counter", "links": {}})
+        devs.append({"type": "Counter" if types is None else "Custom0",
+                     "links": {}})
     return {"terminals": terms, "devices": devs}
 
 
@@ -169,6 +174,8 @@ def make_device(spec, terms):
         return getattr(ebdev, typ)(links["data"])
     if typ in ("Counter", "RandomDropper"):
         return getattr(ebdev, typ)()
+    if typ == "Custom0":
+        return Device()
     if typ == "Motor":
         m = ebdev.Motor()
     else:
